@@ -353,7 +353,7 @@ Section SendQuery.
       sq_result cs qs q log rest (mkWchan cs' (del_query qs (q_qid q)) cl) (log ++ [(q_qid q, st)]) (NDone st') h'
   | SqRegistered cs' cl q2 ci nb tn h' :
       (cs' = cs \/ exists c, cs' = cs ++ [Some c]) ->
-      q_qid q2 = q_qid q -> q_cqn q2 = Some (ci, nb) -> q_tmo q2 = Some tn -> get_slot cs' ci <> None ->
+      q_qid q2 = q_qid q -> q_try q2 = q_try q -> q_cqn q2 = Some (ci, nb) -> q_tmo q2 = Some tn -> get_slot cs' ci <> None ->
       OS base (owned (mkWchan cs' (put_query qs q2) cl) rest) h' ->
       sq_result cs qs q log rest (mkWchan cs' (put_query qs q2) cl) log (NDone ARES_SUCCESS) h'
   | SqRequeue cs' cl st h' :
@@ -531,6 +531,27 @@ Proof.
   apply in_map_iff. exists y. tauto.
 Qed.
 
+(* ---- the measure that bounds the work: K * (attempts the live requests have left) + stack ---- *)
+Definition rq (mx : nat) (q : query) : nat := (mx + 2) - q_try q.
+Definition sum_r (mx : nat) (qs : list query) : nat := list_sum (map (rq mx) qs).
+
+Lemma sum_r_perm mx qs qs' : Permutation qs qs' -> sum_r mx qs = sum_r mx qs'.
+Proof.
+  unfold sum_r. induction 1; simpl; try lia.
+Qed.
+
+Lemma sum_r_cons mx x l : sum_r mx (x :: l) = rq mx x + sum_r mx l.
+Proof. reflexivity. Qed.
+
+Lemma sum_r_split mx qs q : NoDup (qids qs) -> In q qs -> sum_r mx qs = rq mx q + sum_r mx (del_query qs (q_qid q)).
+Proof. intros Hnd Hin. destruct (qids_split qs q Hnd Hin) as [P _]. rewrite (sum_r_perm mx _ _ P). reflexivity. Qed.
+
+Lemma length_split qs q : NoDup (qids qs) -> In q qs -> length qs = S (length (del_query qs (q_qid q))).
+Proof. intros Hnd Hin. destruct (qids_split qs q Hnd Hin) as [P _]. rewrite (Permutation_length P). reflexivity. Qed.
+
+Lemma length_filter_le {A} (p : A -> bool) l : length (filter p l) <= length l.
+Proof. induction l as [|x r IH]; simpl; [lia|]. destruct (p x); simpl; lia. Qed.
+
 Lemma w_after_refused_run ch ci st qid c h h2 :
   get_slot (w_conns ch) ci = Some c ->
   free_opts [Some (wc_node c); Some (wc_sock c)] h = Ok (tt, h2) ->
@@ -573,7 +594,9 @@ Section Invariant.
        let '(ch1, log1, nx) := r in
        a <- w_after ch1 (q_qid q) nx ;;
        ret (fst a, log1, snd a)) h = Ok ((ch2, log2, more), h2) /\
-      Inv ch2 (more ++ rest) log2 h2.
+      Inv ch2 (more ++ rest) log2 h2 /\
+      (forall mx, sum_r mx (w_queries ch2) <= sum_r mx (w_queries ch)) /\
+      length (w_queries ch2) <= length (w_queries ch) /\ length more <= length (w_queries ch) + 2.
   Proof.
     intros I Hin Hdet Hnot.
     pose proof (inv_nodup _ _ _ _ I) as Hnd.
@@ -597,6 +620,8 @@ Section Invariant.
     - (* ended *)
       unfold w_after, ret, bindM. cbn [fst snd].
       eexists; eexists; eexists; eexists. split; [reflexivity|]. cbn [app].
+      split; [|cbn [w_queries]; split; [intros mx; rewrite (sum_r_split mx qs q Hnd Hin); lia|];
+               split; [rewrite (length_split qs q Hnd Hin); lia | simpl; lia]].
       constructor; cbn [w_conns w_queries w_closed].
       + assumption.
       + rewrite map_app. cbn [map fst]. eapply Permutation_trans; [|exact Hids]. perm_solve_z.
@@ -607,6 +632,11 @@ Section Invariant.
     - (* registered *)
       unfold w_after, ret, bindM. cbn [fst snd].
       eexists; eexists; eexists; eexists. split; [reflexivity|]. cbn [app].
+      split; [|cbn [w_queries]; unfold put_query;
+               repeat match goal with H : q_qid q2 = q_qid q |- _ => rewrite H end;
+               split; [intros mx; rewrite (sum_r_split mx qs q Hnd Hin), sum_r_cons; unfold rq;
+                       match goal with H : q_try q2 = q_try q |- _ => rewrite H end; lia|];
+               split; [rewrite (length_split qs q Hnd Hin); simpl; lia | simpl; lia]].
       constructor; cbn [w_conns w_queries w_closed].
       + assumption.
       + eapply Permutation_trans; [|exact Hids]. apply Permutation_app_tail.
@@ -621,6 +651,7 @@ Section Invariant.
     - (* requeue the request itself *)
       unfold w_after, ret, bindM. cbn [fst snd].
       eexists; eexists; eexists; eexists. split; [reflexivity|].
+      split; [|cbn [w_queries]; split; [intros mx; lia|]; split; [lia | simpl; lia]].
       constructor; cbn [w_conns w_queries w_closed].
       + assumption.
       + exact Hids.
@@ -641,6 +672,9 @@ Section Invariant.
         rewrite (bindM_ok _ _ _ _ _ (w_after_refused_run ch0 ci st0 (q_qid q) c h1 h2 Eslot Hfr)) end.
       unfold ret. cbn [fst snd w_conns w_queries w_closed].
       eexists; eexists; eexists; eexists. split; [reflexivity|].
+      split; [|cbn [w_queries]; split; [intros mx; lia|]; split; [lia|];
+               rewrite app_length, !map_length; cbn [length];
+               pose proof (length_filter_le (on_conn ci) qs); lia].
       set (others := map q_qid (filter (on_conn ci) qs)).
       (* the requests on the closed connection *)
       assert (Hoth : forall o, In o others -> exists q', In q' qs /\ q_qid q' = o /\ exists nb, q_cqn q' = Some (ci, nb)).
@@ -678,5 +712,109 @@ Section Invariant.
         * exists q. split; [apply find_unique; assumption|]. unfold q_parked. rewrite (proj2 Hdet). exact I.
         * destruct (Hwq' cs' Hext qid' Hr) as (q' & Hf' & Hp & _). exists q'. split; [exact Hf'|].
           apply q_parked_set. exact Hp.
+  Qed.
+
+  (* one work item *)
+  Lemma w_step_inv ch it rest log h :
+    Inv ch (it :: rest) log h ->
+    exists ch' log' more h', w_step f E ch it log h = Ok ((ch', log', more), h') /\ Inv ch' (more ++ rest) log' h' /\
+      length (w_queries ch') <= length (w_queries ch) /\
+      (forall K, length (w_queries ch) + 3 <= K ->
+         K * sum_r (we_nservers E * we_tries E) (w_queries ch') + length (more ++ rest)
+         < K * sum_r (we_nservers E * we_tries E) (w_queries ch) + length (it :: rest)).
+  Proof.
+    intros I. pose proof (inv_nodup _ _ _ _ I) as Hnd.
+    destruct I as [Hos Hids Hrng Hwnd Hwq]. destruct ch as [cs qs cl]. cbn [w_conns w_queries w_closed] in *.
+    destruct it as [qid st | blks].
+    2:{ (* the tail of ares_close_connection *)
+        unfold w_step. cbn [w_conns w_queries w_closed].
+        assert (Hos1 : OS base (blks ++ owned (mkWchan cs qs (S cl)) rest) h).
+        { eapply os_perm; [|exact Hos]. unfold owned. cbn [w_queries w_conns work_blks flat_map item_blks].
+          fold (work_blks rest). perm_solve. }
+        destruct (os_free base blks _ h Hos1) as (h' & Hfr & Hos' & _).
+        rewrite (bindM_ok _ _ _ _ _ Hfr). unfold ret.
+        eexists; eexists; eexists; eexists. split; [reflexivity|]. cbn [app].
+        split; [constructor; cbn [w_conns w_queries w_closed]; auto|].
+        cbn [w_queries length]. split; [lia | intros K HK; lia]. }
+    (* ares_requeue_query *)
+    cbn [work_qids flat_map item_qid app] in Hwnd, Hwq. fold (work_qids rest) in Hwnd, Hwq.
+    inversion Hwnd as [|? ? Hnot Hwnd']; subst.
+    destruct (Hwq qid (or_introl eq_refl)) as (q & Hfind & Hpark).
+    destruct (find_query_In _ _ _ Hfind) as [Hin Hqid].
+    unfold w_step. cbn [w_conns w_queries w_closed]. rewrite Hfind.
+    pose proof (all_qblks_split qs q Hnd Hin) as Hsplit.
+    set (D := all_qblks (del_query qs (q_qid q))) in *.
+    set (five := cat_somes [q_qide q; q_all q; q_name q; q_rec q; Some (q_blk q)]).
+    assert (Hos1 : OS base (cat_somes [q_tmo q; option_map snd (q_cqn q)] ++ (five ++ D ++ all_cblks cs ++ work_blks rest)) h).
+    { eapply os_perm; [|exact Hos]. unfold owned. cbn [w_queries w_conns work_blks flat_map item_blks app].
+      fold (work_blks rest).
+      assert (Hq : qblks q = cat_somes [q_tmo q; option_map snd (q_cqn q)] ++ five).
+      { unfold qblks, qall, five. destruct (q_tmo q); destruct (option_map snd (q_cqn q)); reflexivity. }
+      rewrite Hq in Hsplit. perm_solve. }
+    destruct (os_free_opts base _ _ h Hos1) as (h1 & Hfr & Hos2 & _).
+    unfold w_detach. rewrite (bindM_ok _ _ _ _ _ (bindM_ok _ _ _ _ _ Hfr)). unfold ret at 1. cbv beta iota.
+    cbn [q_qid q_blk q_rec q_name q_all q_qide q_try q_err q_tcp].
+    set (q2 := mkQuery (q_qid q) (q_blk q) (q_rec q) (q_name q) (q_all q) (q_qide q) None None
+                       (S (q_try q)) (if Z.eqb st ARES_SUCCESS then q_err q else st) (q_tcp q)).
+    set (ch1 := mkWchan cs (put_query qs q2) cl).
+    assert (Hq2id : q_qid q2 = qid) by exact Hqid.
+    assert (I1 : Inv ch1 rest log h1).
+    { constructor; unfold ch1; cbn [w_conns w_queries w_closed].
+      - unfold owned, put_query. cbn [w_queries w_conns all_qblks flat_map]. fold (all_qblks (del_query qs (q_qid q2))).
+        cbn [q_qid q2]. fold D.
+        assert (Hb : qblks q2 = five) by reflexivity. rewrite Hb.
+        eapply os_perm; [|exact Hos2]. perm_solve.
+      - eapply Permutation_trans; [|exact Hids]. apply Permutation_app_tail.
+        apply qids_put_perm; [exact Hnd|]. rewrite Hq2id, <- Hqid. apply in_map. exact Hin.
+      - intros q' [<-|Hq']; [exact I|]. apply In_del in Hq'. apply Hrng. tauto.
+      - exact Hwnd'.
+      - intros qid' Hq'. destruct (Hwq qid' (or_intror Hq')) as (q' & Hf' & Hp').
+        exists q'. rewrite find_put_other; [auto|]. rewrite Hq2id. intros ->. contradiction. }
+    assert (Hin2 : In q2 (w_queries ch1)) by (left; reflexivity).
+    assert (Hdet2 : detached q2) by (split; reflexivity).
+    assert (Hnot2 : ~ In (q_qid q2) (work_qids rest)) by (rewrite Hq2id; exact Hnot).
+    set (mx := we_nservers E * we_tries E).
+    pose proof (sum_r_split mx qs q Hnd Hin) as Hsum.
+    pose proof (length_split qs q Hnd Hin) as Hlen.
+    assert (Hsum1 : sum_r mx (w_queries ch1) = rq mx q2 + sum_r mx (del_query qs (q_qid q))).
+    { unfold ch1. cbn [w_queries]. unfold put_query. rewrite sum_r_cons. reflexivity. }
+    assert (Hlen1 : length (w_queries ch1) = length qs).
+    { unfold ch1. cbn [w_queries]. unfold put_query. cbn [length q_qid q2]. lia. }
+    match goal with |- context [if ?c then _ else _] => destruct c eqn:Ec end.
+    - destruct (send_after_inv ch1 q2 rest log h1 I1 Hin2 Hdet2 Hnot2)
+        as (ch2 & log2 & more & h2 & Hrun & I2 & Hs2 & Hl2 & Hm2).
+      exists ch2, log2, more, h2. split; [rewrite <- Hrun; rewrite <- Hq2id; reflexivity|].
+      split; [exact I2|]. cbn [w_queries]. split; [lia|].
+      intros K HK. apply andb_true_iff in Ec as [Elt _]. apply Nat.ltb_lt in Elt. fold mx in Elt.
+      specialize (Hs2 mx). rewrite Hsum1 in Hs2. unfold rq in Hs2, Hsum. cbn [q_try q2] in Hs2.
+      rewrite app_length. cbn [length].
+      pose proof (Nat.mul_le_mono_l _ _ K Hs2) as Hk. rewrite Hsum.
+      assert (Hk2 : K * (mx + 2 - S (q_try q) + sum_r mx (del_query qs (q_qid q))) + K
+                    = K * (mx + 2 - q_try q + sum_r mx (del_query qs (q_qid q)))).
+      { replace (mx + 2 - q_try q) with (S (mx + 2 - S (q_try q))) by lia. lia. }
+      lia.
+    - (* out of attempts: end_query *)
+      destruct I1 as [Hos3 Hids3 Hrng3 Hwnd3 Hwq3].
+      set (stf := if Z.eqb (q_err q2) ARES_SUCCESS then ARES_ETIMEOUT else q_err q2).
+      assert (Hos4 : OS base (qblks q2 ++ (D ++ all_cblks cs ++ work_blks rest)) h1).
+      { eapply os_perm; [|exact Hos3]. unfold ch1, owned, put_query. cbn [w_queries w_conns all_qblks flat_map].
+        fold (all_qblks (del_query qs (q_qid q2))). cbn [q_qid q2]. fold D. perm_solve. }
+      destruct (w_end_spec base ch1 q2 stf log _ h1 Hos4) as (h2 & Hr & Hos5).
+      rewrite (bindM_ok _ _ _ _ _ Hr). unfold ret. cbn [fst snd].
+      eexists; eexists; eexists; eexists. split; [reflexivity|]. cbn [app].
+      unfold ch1. cbn [w_conns w_queries w_closed]. rewrite del_put. cbn [q_qid q2].
+      split; [|cbn [length]; split; [lia|]; intros K HK; rewrite Hsum;
+               pose proof (Nat.le_add_l (sum_r mx (del_query qs (q_qid q))) (rq mx q)) as Hle;
+               pose proof (Nat.mul_le_mono_l _ _ K Hle); lia].
+      pose proof (qids_split qs q Hnd Hin) as [Hqp _].
+      pose proof (Permutation_map q_qid Hqp) as Hqp'. cbn [map] in Hqp'.
+      fold (qids qs) in Hqp'. fold (qids (del_query qs (q_qid q))) in Hqp'.
+      constructor; cbn [w_conns w_queries w_closed].
+      + unfold owned. cbn [w_queries w_conns]. fold D. exact Hos5.
+      + rewrite map_app. cbn [map fst]. eapply Permutation_trans; [|exact Hids]. perm_solve_z.
+      + intros q' Hq'. apply In_del in Hq'. apply Hrng. tauto.
+      + exact Hwnd'.
+      + intros qid' Hq'. destruct (Hwq qid' (or_intror Hq')) as (q' & Hf' & Hp').
+        exists q'. rewrite find_del_other; [auto|]. rewrite Hqid. intros ->. contradiction.
   Qed.
 End Invariant.
